@@ -247,12 +247,19 @@ def portable_targets(ctx):
     targets = ["s390x-unknown-linux-gnu", "i686-unknown-linux-gnu"] if ctx.tier == "quick" else \
         ["s390x-unknown-linux-gnu", "powerpc-unknown-linux-gnu", "i686-unknown-linux-gnu"]
 
+    # the same real code, natively on the little-endian 64-bit host: the reference the other targets must reproduce
+    host = C.build_harness("dev")
+    host_tr, _ = C.impl_run(host, hists)
+    obs = KEEP + ("OK",)
+
     def oracle(h, il):
         if any(l == "PANIC" for l in il):
             return "panic"
-        ds = [l for l in il if l.split(" ", 1)[0] in ("D64", "D128", "D256")]
-        if len(ds) >= 2 and ds[0] != ds[1]:
-            return "PortableHash %s vs restored dispatcher %s" % (ds[0], ds[1])
+        want = C.filter_lines(host_tr.get(h.hid, []), obs)
+        got = C.filter_lines(il, obs)
+        if got != want:
+            d = C.first_diff(got, want)
+            return "the portable hasher gives `%s` on this target but `%s` on the x86_64 host (output line %d)" % (d[1], d[2], d[0])
         return None
     for t in targets:
         itr, problems = std_run(t, hists)
